@@ -44,7 +44,7 @@ def run_C02(ctx):
 
 
 def run_C06(ctx):
-    drive_and_validate(ctx, [{"driver": "C06", "n": sz(ctx, 3200, 160000), "probes": 40}])
+    drive_and_validate(ctx, [{"driver": "C06", "n": sz(ctx, 6400, 160000), "probes": 40}])
 
 
 def run_C11(ctx):
@@ -114,7 +114,7 @@ def run_C03(ctx):
 
 
 def run_C04(ctx):
-    drive_and_validate(ctx, [{"driver": "C04", "n": sz(ctx, 1600, 60000), "probes": 32}])
+    drive_and_validate(ctx, [{"driver": "C04", "n": sz(ctx, 6400, 60000), "probes": 32}])
 
 
 def run_C09(ctx):
